@@ -5,6 +5,7 @@ SPECIFICATION Spec
 CONSTANTS
   MembersFile = "members.ndjson"
   ExhaustiveFams = {"AllocKind", "DISPFlag"}
+  Arity = 2
   RangeLimited = TRUE
 INVARIANTS ExactCover
 CHECK_DEADLOCK FALSE
